@@ -4,6 +4,8 @@
 -/
 import BespokeVerif.Model.Layout
 import BespokeVerif.Lemmas.Data
+import BespokeVerif.Model.Split
+import BespokeVerif.Lemmas.Split
 namespace BV.C11
 open BV
 
@@ -103,5 +105,35 @@ theorem unescape_length_le (cs : List Char) : (unescape cs).length ≤ cs.length
 /-- non-vacuity -/
 example : wordBytes 2 false (-2) = [255, 254] ∧ wordBytes 2 true 0x12345 = [0x45, 0x23] := by decide +kernel
 example : unescape "a\\n\\x41\\0;\\\"".toList = [97, 10, 65, 0, 59, 34] := by decide +kernel
+
+
+/-! ## value lists: where one listed value ends and the next begins (`split_on_commas`) -/
+
+/-- splitting loses nothing: the items joined by commas are the text -/
+theorem splitCommas_join (s : List Char) : joinCommas (splitCommas s) = s :=
+  SplitLemmas.splitCommas_join s
+
+/-- a text without quote characters is split at every comma, exactly like `str.split(',')` -/
+theorem splitCommas_no_quote (s : List Char) (h : '\'' ∉ s) : splitCommas s = splitPlain s :=
+  SplitLemmas.splitCommas_no_quote s h
+
+/-- Main statement: a list of well-tokenised values (quoted characters — the comma `','` and the
+    quote included — and other characters that are neither comma nor quote), written with commas
+    between them, is split into exactly those values. -/
+theorem splitCommas_items (items : List (List QSeg)) (hne : items ≠ [])
+    (hok : ∀ it ∈ items, ∀ sg ∈ it, sg.ok = true) :
+    splitCommas (joinCommas (items.map renderItem)) = items.map renderItem :=
+  SplitLemmas.splitCommas_items items hne hok
+
+/-- the number of values is one more than the number of separating commas -/
+theorem splitCommas_length (items : List (List QSeg)) (hne : items ≠ [])
+    (hok : ∀ it ∈ items, ∀ sg ∈ it, sg.ok = true) :
+    (splitCommas (joinCommas (items.map renderItem))).length = items.length :=
+  SplitLemmas.splitCommas_length items hne hok
+
+/-- a quoted comma is one value, not two (the defect repaired in /repo: D35) -/
+example : splitCommas "1, ',', 2".toList = ["1".toList, " ','".toList, " 2".toList] ∧
+          splitPlain "1, ',', 2".toList = ["1".toList, " '".toList, "'".toList, " 2".toList] := by
+  decide
 
 end BV.C11
